@@ -7,7 +7,7 @@ ASSUMPTIONS = engcommon.ASSUMPTIONS_ENGINE + ['a killed command has written each
 def run(ctx):
     rnd = random.Random(ctx.seed * 7 + 7)
     nb = 25 if ctx.quick() else 300
-    bases = [ec.gen_crash_base(rnd, 'C07_b%d' % i) for i in range(nb)]
+    bases = [ec.gen_crash_base(rnd, 'C07_b%d' % i) for i in range(nb)] + [ec.motif_restat_deps_crash(rnd, 'C07_rd%d' % i) for i in range(4)]
     npts = ec.count_crash_points(bases, rnd)
     hists = []
     for b, n in zip(bases, npts): hists += ec.crash_variants(rnd, b, min(n, 120))
